@@ -331,8 +331,10 @@ func (f *FibStrategyHashTable) clearNextHopsEnc(name enc.Name) {
 
 // UpdateBatch applies several next-hop changes atomically with respect to lookups.
 func (f *FibStrategyHashTable) UpdateBatch(fn func(b FibBatch)) {
+	verifBeforeWLock(&f.fibStrategyRWMutex, "fib.lock")
 	f.fibStrategyRWMutex.Lock()
 	defer f.fibStrategyRWMutex.Unlock()
+	verifMutating(&f.fibStrategyRWMutex, "fib.mut")
 	fn(fibHashTableBatch{f})
 }
 
